@@ -2,6 +2,7 @@ import Cuke.Lemmas.Sched
 import Cuke.Lemmas.SchedLts
 import Cuke.Model.SchedMon
 import Cuke.Lemmas.Brackets
+import Cuke.Lemmas.SchedBrackets
 /-!
 # C03 — Event stream framing: run/feature/rule brackets are exact and properly nested
 Model: `Cuke.startScenarios`, `Cuke.scenarioFinished`, `Cuke.finishAll`, the run-level labels of the
@@ -180,5 +181,42 @@ def ledgerOps : List Cuke.BrL.BOp :=
 
 example : (Cuke.BrL.brRun Brackets.empty ledgerOps).map (·.2) =
     some [.featStarted 1, .ruleStarted 1 5, .ruleFinished 1 5, .featFinished 1] := by decide +kernel
+
+
+/-! ## The bracket ledger as an invariant of the scheduler LTS (whole runs, any log)
+
+`GoodB` = the log raised no class-B disagreement (an unexpected / missing bracket event, a notification the
+bookkeeping has no entry for). `hist` = everything sent so far followed by everything still owed.
+Lemmas/SchedBrackets.lean. -/
+
+open Cuke.SchedBr Cuke.BrL in
+/-- **Ledger at every moment of every run**: over sent ++ owed events, every feature (rule) has
+    #Started = #Finished + 1 if it is still open in the bookkeeping, else #Started = #Finished — whatever
+    the parser delivered, in whatever order attempts completed, with retries, fail-fast, parser errors. -/
+theorem lts_bracket_ledger (c : SCfg) (ls : List Label) (hg : GoodB (accept c ls) = true) :
+    FeatLedger (accept c ls).br (hist (accept c ls)) ∧ RuleLedger (accept c ls).br (hist (accept c ls)) :=
+  foldl_binv c ls {} binv_init hg
+
+open Cuke.SchedBr Cuke.BrL in
+/-- **Balanced at the end**: in every run replayed without a class-B disagreement, once the bookkeeping is
+    empty (after `finish_all_rules_and_features`) and nothing is owed any more (checked when the panic hook is
+    restored), the stream that was actually SENT contains, for every feature and every rule, exactly as many
+    Finished as Started events. -/
+theorem lts_brackets_balanced (c : SCfg) (ls : List Label) (hg : GoodB (accept c ls) = true)
+    (hb : (accept c ls).br = Brackets.empty) (he : expEvents (accept c ls).expect = []) :
+    (∀ f, cnt (.featStarted f) (accept c ls).out = cnt (.featFinished f) (accept c ls).out) ∧
+    (∀ f r, cnt (.ruleStarted f r) (accept c ls).out = cnt (.ruleFinished f r) (accept c ls).out) := by
+  obtain ⟨hF, hR⟩ := lts_bracket_ledger c ls hg
+  rw [hb] at hF hR
+  have hh : hist (accept c ls) = (accept c ls).out := by simp [hist, he]
+  rw [hh] at hF hR
+  exact ⟨fun f => (hF.2 f).2 (by simp [keysF, Brackets.empty]), fun f r => (hR.2 f r).2 (by simp [keysR, Brackets.empty])⟩
+
+open Cuke.SchedBr in
+/-- the hypotheses of `lts_brackets_balanced` are what a complete clean run ends in (non-vacuity), and a
+    Finished bracket that is never sent is a class-B disagreement -/
+example : GoodB (accept exCfg exLog) = true ∧ (accept exCfg exLog).br = Brackets.empty ∧
+    expEvents (accept exCfg exLog).expect = [] ∧
+    GoodB (accept exCfg (exLog.take 16 ++ exLog.drop 17)) = false := by decide +kernel
 
 end Cuke.C03
